@@ -50,6 +50,7 @@ CLASSES = {
                       "PI2 period >= 0": "self._period >= 0"},
     },
     "SimpleWatchdog": {
+        "exact": True,
         "fields": {"_get_time": "dotted:wpilib.RobotController.getFPGATime", "_startTime": "Int", "_timeout": "Int", "_expirationTime": "Int",
                    "_lastTimeoutPrintTime": "Int", "_lastEpochsPrintTime": "Int", "_epochs": "Seq[(Str,Int)]", "g_armed": "Bool"},
         "invariant": {"C19.WI1 once enabled/reset, expiration == start + timeout": "implies(self.g_armed, self._expirationTime == self._startTime + self._timeout)"},
